@@ -4,7 +4,7 @@
 EXTENDS JudgeTs
 VARIABLES c, done
 
-PropNames == {"a", "b", "cb", "q-k", "z", "u"}
+PropNames == {"a", "b", "cb", "q-k", "z", "u", "w", "v"}
 IsFunctionProp(k) == k = "cb"
 
 EntryFor(ob, k) == LET idx == {i \in 1..Len(ob.abs.entries) : ob.abs.entries[i].key = k} IN
